@@ -433,10 +433,23 @@ func checkCapMin(w *World, r *Report, tm *Terms, tree map[*ssa.Function]bool) {
 			continue
 		}
 		// one operand is a lookup in the allowance map keyed by the bid's bidder
-		var capT, reqT *Term
+		// the allowance operand: allowance[bidder], or that with "absent ⇒ zero" (comma-ok form with a zero default)
+		var capT, reqT, capOperand *Term
 		for j, a := range t.Args {
-			if a.Op == "lookup" && a.Args[0].Op == "makemap" {
-				capT, reqT = a, t.Args[1-j]
+			var lk *Term
+			okAlts := true
+			for _, alt := range a.Alts() {
+				alt = uncell(alt)
+				switch {
+				case alt.Op == "lookup" && len(alt.Args) == 2 && uncell(alt.Args[0]).Op == "makemap":
+					lk = alt
+				case alt.Op == "call" && strings.HasSuffix(alt.Name, ".ZeroInt"):
+				default:
+					okAlts = false
+				}
+			}
+			if okAlts && lk != nil {
+				capT, reqT, capOperand = lk, t.Args[1-j], a
 			}
 		}
 		if capT == nil {
@@ -453,7 +466,7 @@ func checkCapMin(w *World, r *Report, tm *Terms, tree map[*ssa.Function]bool) {
 			case isField(v, "MaxBidAmount") && isField(ks[k], "Bidder") && v.Args[0].Key() == ks[k].Args[0].Key():
 				seeded = true
 			case v.Op == "call" && v.Name == mathPath+".Int.Sub" && len(v.Args) == 2 && v.Args[1].Key() == t.Key() &&
-				v.Args[0].Op == "lookup" && v.Args[0].Args[0].Key() == capT.Args[0].Key() && ks[k].Key() == capT.Args[1].Key():
+				((v.Args[0].Op == "lookup" && v.Args[0].Args[0].Key() == capT.Args[0].Key()) || v.Args[0].Key() == capOperand.Key()) && ks[k].Key() == capT.Args[1].Key():
 				decOK = true
 			default:
 				other = fmt.Sprintf("allowance map updated with %s under key %s", v.String(), ks[k].String())
